@@ -12,13 +12,16 @@ SAFE_FILTERS = [None, None, "affine", "cumsum", "square"]  # no sparse solve: bi
 
 
 def gen_config(rng, *, kinds=None, scheduler=None, loss_kinds=None, max_params=4, max_bs=3, n_samplers=None, model="plain",
-               max_points=40, ensemble=None, conv=None, params=None):
+               max_points=40, ensemble=None, conv=None, params=None, square=False):
     P = int(rng.integers(1, max_params + 1)) if params is None else int(params)
     sd = G.gen_space(rng, dims=P, max_points=max_points)
     D = int(rng.integers(1, 4)) if model in ("plain", "mut", "slow", "globalrng") else (int(rng.integers(1, 3)) if model == "huge" else 1)
     lk = str(rng.choice(loss_kinds or LOSS_KINDS))
     n_lo = max(12, -(-(P + M.HEADER) // D))
     N = int(rng.integers(n_lo, n_lo + 14))
+    if square:
+        # as many simulated periods as variables: the series of one member is a square array (plain model, Minkowski-type losses)
+        D = N = int(rng.integers(4, 7))
     loss = LG.gen_loss_desc(rng, lk, D, N)
     if loss.get("filters") is not None:
         fl = []
